@@ -856,22 +856,6 @@ where
 
 const N_TYPES: u64 = 17;
 
-#[derive(Debug, Clone)]
-struct Bad(f64);
-impl PartialEq for Bad { fn eq(&self, o: &Self) -> bool { self.0 == o.0 } }
-impl Eq for Bad {}
-impl PartialOrd for Bad { fn partial_cmp(&self, o: &Self) -> Option<Ordering> { self.0.partial_cmp(&o.0) } }
-impl Ord for Bad { fn cmp(&self, o: &Self) -> Ordering { self.0.total_cmp(&o.0) } }
-impl Hash for Bad { fn hash<H: Hasher>(&self, h: &mut H) { self.0.to_bits().hash(h) } }
-impl Val for Bad {
-    fn gen(r: &mut Rng) -> Self { Bad(f64::gen(r)) }
-    fn mutate(&self, r: &mut Rng) -> Self { Bad(self.0.mutate(r)) }
-    fn dump(&self, out: &mut String) { self.0.dump(out) }
-    fn top(&self) -> String { self.0.top() }
-    fn flags(&self) -> u8 { self.0.flags() }
-}
-
-
 fn case(rep: &mut Report, sub: &str, seed: u64) {
     let mut rng = Rng::new(seed);
     let r = &mut rng;
@@ -904,10 +888,6 @@ fn case(rep: &mut Report, sub: &str, seed: u64) {
     ops!(TKeyMapMap, "map<double,map<string,double>>");
     ops!(TListMap, "list<map<string,double>>");
     ops!(TDeep, "optional<map<double,list<optional<double>>>>");
-    {
-        let p = pool::<Bad>(r);
-        check_pool(rep, sub, seed, "BAD", &p, Some(|k: &Bad| k.0));
-    }
     {
         let p = pool::<Obj>(r);
         check_pool(rep, sub, seed, "mimic-object", &p, None);
